@@ -336,8 +336,9 @@ fn mk(verb: &str, k: usize, base: u16) -> Option<Request> {
     let rt = |r: RequestType| Some(Request { request_type: Some(r) });
     let cl = format!("c{}", k % 3);
     let bad = k >= 6;
-    // listener verbs pick the listener type with k % 4; the UDP listener lives at base + 3
-    let port = if !bad && k % 4 == 3 && verb.ends_with("Listener") && !verb.starts_with("Update") { base + 3 } else { base + (k % 3) as u16 };
+    // listener verbs pick the listener type with k % 4; the UDP listener lives on the SAME ip:port as the TCP
+    // listener (base + 2, like 53/tcp + 53/udp): the two own distinct slots keyed by (type, address)
+    let port = if !bad && k % 4 == 3 && verb.ends_with("Listener") && !verb.starts_with("Update") { base + 2 } else { base + (k % 3) as u16 };
     let host = ["a.test", "b.test", "*.w.test"][k % 3].to_string();
     let http_front = |address: SocketAddress| RequestHttpFrontend {
         cluster_id: Some(cl.clone()),
@@ -389,8 +390,8 @@ fn mk(verb: &str, k: usize, base: u16) -> Option<Request> {
         }
         "AddTcpFrontend" => rt(RequestType::AddTcpFrontend(RequestTcpFrontend { cluster_id: cl, address: addr(base + 2), ..Default::default() })),
         "RemoveTcpFrontend" => rt(RequestType::RemoveTcpFrontend(RequestTcpFrontend { cluster_id: cl, address: addr(base + 2), ..Default::default() })),
-        "AddUdpFrontend" => rt(RequestType::AddUdpFrontend(RequestUdpFrontend { cluster_id: cl, address: addr(base + 3), ..Default::default() })),
-        "RemoveUdpFrontend" => rt(RequestType::RemoveUdpFrontend(RequestUdpFrontend { cluster_id: cl, address: addr(base + 3), ..Default::default() })),
+        "AddUdpFrontend" => rt(RequestType::AddUdpFrontend(RequestUdpFrontend { cluster_id: cl, address: addr(base + 2), ..Default::default() })),
+        "RemoveUdpFrontend" => rt(RequestType::RemoveUdpFrontend(RequestUdpFrontend { cluster_id: cl, address: addr(base + 2), ..Default::default() })),
         "AddCertificate" => rt(RequestType::AddCertificate(AddCertificate {
             address: addr(base + 1),
             certificate: if k % 2 == 0 { cert(CERT, KEY) } else { cert(CERT2, KEY2) },
@@ -409,7 +410,7 @@ fn mk(verb: &str, k: usize, base: u16) -> Option<Request> {
         "AddHttpListener" => rt(RequestType::AddHttpListener(ListenerBuilder::new_http(addr(base)).to_http(None).ok()?)),
         "AddHttpsListener" => rt(RequestType::AddHttpsListener(ListenerBuilder::new_https(addr(base + 1)).to_tls(None).ok()?)),
         "AddTcpListener" => rt(RequestType::AddTcpListener(ListenerBuilder::new_tcp(addr(base + 2)).to_tcp(None).ok()?)),
-        "AddUdpListener" => rt(RequestType::AddUdpListener(ListenerBuilder::new_udp(addr(base + 3)).to_udp(None).ok()?)),
+        "AddUdpListener" => rt(RequestType::AddUdpListener(ListenerBuilder::new_udp(addr(base + 2)).to_udp(None).ok()?)),
         "UpdateHttpListener" => rt(RequestType::UpdateHttpListener(UpdateHttpListenerConfig {
             address: addr(port),
             front_timeout: Some(7),
@@ -418,7 +419,7 @@ fn mk(verb: &str, k: usize, base: u16) -> Option<Request> {
         })),
         "UpdateHttpsListener" => rt(RequestType::UpdateHttpsListener(UpdateHttpsListenerConfig { address: addr(port), front_timeout: Some(7), ..Default::default() })),
         "UpdateTcpListener" => rt(RequestType::UpdateTcpListener(UpdateTcpListenerConfig { address: addr(port), front_timeout: Some(7), ..Default::default() })),
-        "UpdateUdpListener" => rt(RequestType::UpdateUdpListener(UpdateUdpListenerConfig { address: addr(base + 3), ..Default::default() })),
+        "UpdateUdpListener" => rt(RequestType::UpdateUdpListener(UpdateUdpListenerConfig { address: addr(base + 2), ..Default::default() })),
         "RemoveListener" => rt(RequestType::RemoveListener(RemoveListener { address: addr(port), proxy: if bad { 99 } else { (k % 4) as i32 } })),
         "ActivateListener" => rt(RequestType::ActivateListener(ActivateListener { address: addr(port), proxy: if bad { 99 } else { (k % 4) as i32 }, from_scm: false })),
         "DeactivateListener" => rt(RequestType::DeactivateListener(DeactivateListener { address: addr(port), proxy: if bad { 99 } else { (k % 4) as i32 }, to_scm: false })),
@@ -475,6 +476,11 @@ fn mk(verb: &str, k: usize, base: u16) -> Option<Request> {
 }
 
 fn start(base_port: u16) -> W {
+    start_with(base_port, None)
+}
+
+/// `bufs`: (initial, maximal) size of the worker's command channel buffers, instead of the configured ones
+fn start_with(base_port: u16, bufs: Option<(u64, u64)>) -> W {
     let (a, b) = UnixStream::pair().unwrap();
     let (s1, s2) = UnixStream::pair().unwrap();
     a.set_nonblocking(true).unwrap();
@@ -487,7 +493,7 @@ fn start(base_port: u16) -> W {
             let config = ConfigBuilder::new(FileConfig::default(), "").into_config().expect("config");
             let sc = ServerConfig::from(&config);
             let channel: Channel<WorkerResponse, WorkerRequest> =
-                Channel::new(mio::net::UnixStream::from_std(a), sc.command_buffer_size, sc.max_command_buffer_size);
+                Channel::new(mio::net::UnixStream::from_std(a), bufs.map(|b| b.0).unwrap_or(sc.command_buffer_size), bufs.map(|b| b.1).unwrap_or(sc.max_command_buffer_size));
             let scm_main = ScmSocket::new(s2.into_raw_fd()).expect("scm");
             scm_main.send_listeners(&Listeners::default()).expect("send listeners");
             let scm = ScmSocket::new(s1.into_raw_fd()).expect("scm");
@@ -532,7 +538,7 @@ impl W {
         if verb.contains("Listener") {
             if master_ok != worker_ok && (verb == "ActivateListener" || verb.starts_with("Add")) {
                 // e.g. the port could not be bound: nothing is claimed about that address any more
-                let p = if verb == "ActivateListener" { if k < 6 && k % 4 == 3 { base + 3 } else { base + (k % 3) as u16 } } else { base + ["AddHttpListener", "AddHttpsListener", "AddTcpListener", "AddUdpListener"].iter().position(|v| *v == verb).unwrap_or(0) as u16 };
+                let p = if verb == "ActivateListener" { if k < 6 && k % 4 == 3 { base + 2 } else { base + (k % 3) as u16 } } else { base + ["AddHttpListener", "AddHttpsListener", "AddTcpListener", "AddUdpListener"].iter().position(|v| *v == verb).map(|i| if i == 3 { 2 } else { i }).unwrap_or(0) as u16 };
                 if !self.unknown.contains(&p) {
                     self.unknown.push(p);
                 }
@@ -638,10 +644,10 @@ impl W {
         }
         // UDP: one datagram through the activated UDP listener
         let udp_verbs = matches!(verb, "AddUdpFrontend" | "RemoveUdpFrontend" | "AddBackend" | "RemoveBackend" | "ActivateListener" | "DeactivateListener");
-        let udp_known = !self.unknown.contains(&(base + 3)) && !self.routing_unknown;
+        let udp_known = !self.unknown.contains(&(base + 2)) && !self.routing_unknown;
         if udp_verbs && udp_known && self.n_udp < 5 {
-            let up = self.master.udp_listeners.get(&sa(base + 3)).map(|l| l.active).unwrap_or(false);
-            let clusters: Vec<String> = self.master.udp_fronts.iter().filter(|(_, fs)| fs.iter().any(|f| f.address == sa(base + 3))).map(|(c, _)| c.clone()).collect();
+            let up = self.master.udp_listeners.get(&sa(base + 2)).map(|l| l.active).unwrap_or(false);
+            let clusters: Vec<String> = self.master.udp_fronts.iter().filter(|(_, fs)| fs.iter().any(|f| f.address == sa(base + 2))).map(|(c, _)| c.clone()).collect();
             let mut allowed: Vec<Option<String>> = vec![];
             if !up || clusters.is_empty() {
                 allowed.push(None);
@@ -659,11 +665,11 @@ impl W {
             // only the cases that expect an answer, or a listener that was up before, are worth the wait
             if allowed.iter().any(|a| a.is_some()) || verb == "DeactivateListener" {
                 self.n_udp += 1;
-                let mut got = udp_ping(base + 3, if allowed.contains(&None) { 150 } else { 1500 }, self.n_udp as u8);
+                let mut got = udp_ping(base + 2, if allowed.contains(&None) { 150 } else { 1500 }, self.n_udp as u8);
                 if got.is_none() && !allowed.contains(&None) {
                     // datagrams may be lost on a loaded machine: one more flow, from another address
                     std::thread::sleep(Duration::from_millis(200));
-                    got = udp_ping(base + 3, 1500, 100 + self.n_udp as u8);
+                    got = udp_ping(base + 2, 1500, 100 + self.n_udp as u8);
                 }
                 if !allowed.contains(&got) {
                     out.viol("udp-mismatch", &format!("after {verb} {k}: a datagram to the UDP listener came back as {:?}, the main process' view allows {:?}", got, allowed));
@@ -782,6 +788,69 @@ fn run(case: &Case, out: &mut Out) {
                 start_udp_backends(base, &wk.stop);
                 w = Some(wk);
                 out.obs(&[]);
+            }
+            "burst" => {
+                // back-pressure: n queries whose answers (~14 kB each: the id is echoed) do not fit the worker's
+                // 20000-byte channel buffer, written in one go while nothing is read; then everything is read.
+                // Every request must have got its one final answer (answers wait in the worker's queue, none is lost)
+                let n = op.args[0].n() as usize;
+                let (base, _claim2) = pick_base();
+                let mut wk = start_with(base, Some((16_384, 20_000)));
+                let idof = |i: usize| {
+                    let mut id = format!("BURST-{i:04}-");
+                    while id.len() < 14_000 {
+                        id.push(char::from(b'a' + (i % 26) as u8));
+                    }
+                    id
+                };
+                let mut written = 0;
+                for i in 0..n {
+                    if !wk.send(&idof(i), &Request { request_type: Some(RequestType::QueryClustersHashes(QueryClustersHashes {})) }) {
+                        break;
+                    }
+                    written += 1;
+                }
+                if written < n {
+                    out.note(&format!("invalid-case: only {written} of {n} requests could be written"));
+                }
+                std::thread::sleep(Duration::from_millis(300));
+                let mut finals: std::collections::HashMap<String, usize> = std::collections::HashMap::new();
+                let t0 = Instant::now();
+                let mut last = Instant::now();
+                while finals.values().sum::<usize>() < written && t0.elapsed() < Duration::from_secs(20) && last.elapsed() < Duration::from_secs(4) {
+                    wk.peer.pump();
+                    let mut got = false;
+                    while let Some(f) = wk.peer.take_frame() {
+                        got = true;
+                        if let Ok(r) = WorkerResponse::decode(&f[..]) {
+                            if r.status != PROCESSING {
+                                *finals.entry(r.id).or_insert(0) += 1;
+                            }
+                        }
+                    }
+                    if got {
+                        last = Instant::now();
+                    } else {
+                        std::thread::sleep(Duration::from_millis(2));
+                    }
+                }
+                let mut once = 0;
+                for i in 0..written {
+                    match finals.get(&idof(i)).copied().unwrap_or(0) {
+                        1 => once += 1,
+                        0 => out.viol("no-answer", &format!("burst of {n}: request {i} never got its final answer (back-pressure on the command channel)")),
+                        k => out.viol("two-answers", &format!("burst of {n}: request {i} got {k} final answers")),
+                    }
+                }
+                out.obs(&[tn(once as i128)]);
+                wk.send("BURST-STOP", &Request { request_type: Some(RequestType::HardStop(HardStop {})) });
+                let t1 = Instant::now();
+                while !wk.job.as_ref().map(|j| j.is_finished()).unwrap_or(true) && t1.elapsed() < Duration::from_secs(10) {
+                    wk.peer.pump();
+                    wk.peer.buf.clear();
+                    std::thread::sleep(Duration::from_millis(1));
+                }
+                wk.peer.close();
             }
             "send" => {
                 let Some(wk) = w.as_mut() else {
@@ -956,7 +1025,7 @@ fn run(case: &Case, out: &mut Out) {
                     if !dead {
                         // a worker run in a thread never drops its listen sockets: deactivating the
                         // listeners closes them, so that the block of ports can be used again
-                        for (p, proxy) in [(0u16, 0i32), (1, 1), (2, 2), (3, 3)] {
+                        for (p, proxy) in [(0u16, 0i32), (1, 1), (2, 2), (2, 3)] {
                             wk.n += 1;
                             let id = format!("REQ-{}", wk.n);
                             wk.send(&id, &Request { request_type: Some(RequestType::DeactivateListener(DeactivateListener { address: addr(wk.base_port + p), proxy, to_scm: false })) });
